@@ -61,6 +61,30 @@ CLAIMS['C10'] = dict(
     technique='Verus contracts on extracted scope::Stack and VM::binding_push/op_bind/clean_copy over an abstract map view',
 )
 
+CLAIMS['C14'] = dict(
+    text=('DECIDED at hook level: for every converter outcome, the real out hook against a ghost file system: a second out for the '
+          'same source is an error with the world unchanged; on success exactly one file changes, fs\' == fs.insert(source.with_extension('
+          'ext(format)), conv(format, value)) (whole-map equality), with ext proved equal to each real file_ext; if the value cannot be '
+          'converted or the format is unknown the result is an error and the file system is unchanged (no new, empty or truncated '
+          'artifact); `convert` pushes the lossy-UTF-8 string of the same bytes. I/O errors of create/write are outside the property.'),
+    design_ref='DESIGN.md §5 C14',
+    note=('Trusted: Verus/Z3; Converter::convert as a deterministic function of (converter, value) writing only to its writer; '
+          'File::create / write_all / PathBuf::with_extension / BTreeSet / HashMap models in prelude/out_hook_world.rs; RefCell borrows '
+          'never conflict (R11); dyn Converter as the closed sum of the 8 implementors; one Hook::Out per out statement (translator) not covered.'),
+    technique='Verus contracts on extracted Builtins::out/convert with the file system as ghost state',
+)
+CLAIMS['C18'] = dict(
+    text=('PARTIAL: for every environment, name and VM state: `env` resolves to the local binding if one exists, else to a tuple with '
+          'exactly one field per captured variable holding its value unchanged as a string; selector lookup returns the first matching '
+          'field / in-range element, NULL on a miss when not strict, and in strict mode a build error whose message is proved (by an '
+          'information-flow label on every format! call site) not to contain the target value - so `env.NOPE` cannot disclose other '
+          'variables. Capture of the environment in main, --no-strict plumbing and the parser\'s refusal of `let env` are not covered.'),
+    design_ref='DESIGN.md §5 C18',
+    note=('Trusted: Verus/Z3; BTreeMap iteration yields each entry once in key order (model); Rc<str> equality compares contents; '
+          'format! call sites reduced to tainted/clean stubs by rule R1T (the label is computed from the macro arguments).'),
+    technique='Verus contracts on extracted get_binding/get_env_vars_tuple/op_index with information-flow labels on messages',
+)
+
 NOT_APPLICABLE = {
     'C03': 'unit not completed yet (Val->format value mappers planned, DESIGN §5 C03)',
     'C05': 'unit not completed yet (literal escaping round trip planned, DESIGN §5 C05)',
@@ -71,11 +95,9 @@ NOT_APPLICABLE = {
     'C11': 'unit not completed yet (position stepping and literal decoding planned, DESIGN §5 C11)',
     'C12': 'well-formedness, escaping and namespaces are produced by the xml-rs dependency; the property is about those bytes and an independent parser (DESIGN §5 C12)',
     'C13': 'unit not completed yet (assert collector and verdict planned, DESIGN §5 C13)',
-    'C14': 'unit not completed yet (out hook against a ghost file system planned, DESIGN §5 C14)',
     'C15': 'unit not completed yet (format value->Val mappers planned, DESIGN §5 C15)',
     'C16': 'hyperproperty over runs of a process (sets/orders of files) through cross-file memoisation; needs the whole compiler specified as a function of the file system (DESIGN §5 C16)',
     'C17': 'diagnostic positions are plumbed through ~120 translator push sites and parser-combinator error contexts; needs end positions the AST does not carry and relates two runs (DESIGN §5 C17)',
-    'C18': 'unit not completed yet (env lookup / selector miss planned, DESIGN §5 C18)',
     'C19': 'the helpers are UCG programs (std/*.ucg), not Rust; neither verifier reads UCG (DESIGN §5 C19)',
     'C20': 'history property of a JSON-RPC loop over lsp-server/serde and the whole lenient compiler pipeline (DESIGN §5 C20)',
 }
